@@ -119,8 +119,26 @@ class Builder(object):
         op = self.emit(op="plin", out=x, terms=[[h, float(w)] for h, w in terms])
         if self.rng.random() < 0.12:
             op["acc"] = True      # written as `acc = null_point; acc += ...`
+        elif self.rng.random() < 0.2:
+            op["style"] = self._styles(op["terms"])
         self.points.append(x)
         return x
+
+    STYLES = ["lmul", "rmul", "div", "int", "np", "neg", "sub", "radd", "bool"]
+
+    def _styles(self, terms):
+        """Another spelling of the same combination: t * w, t / (1 / w), int / numpy weights, -t, acc - (-w) t, t + acc."""
+        out = []
+        for h, w in terms:
+            ok = ["lmul", "rmul", "np", "sub", "radd", "neg"]
+            if abs(w) in (0.25, 0.5, 1.0, 2.0, 4.0):
+                ok.append("div")
+            if float(w).is_integer():
+                ok += ["int", "int"]
+            if w == 1.0:
+                ok.append("bool")
+            out.append(self.rng.choice(ok))
+        return out
 
     def inner(self, a, b):
         e = self.nm("e")
@@ -129,7 +147,9 @@ class Builder(object):
 
     def sq(self, a):
         e = self.nm("e")
-        self.emit(op="sq", out=e, a=a)
+        op = self.emit(op="sq", out=e, a=a)
+        if self.rng.random() < 0.2:
+            op["style"] = "mul"       # x * x instead of x ** 2
         return e
 
     def dist2(self, a, b):
@@ -144,6 +164,10 @@ class Builder(object):
             op["const"] = float(const)
         if terms and self.rng.random() < 0.12:
             op["acc"] = True      # written as `acc = null_expression; acc += ...`
+        elif terms and self.rng.random() < 0.2:
+            op["style"] = self._styles(op["terms"])
+            if const is not None:
+                op["const_style"] = self.rng.choice(["radd", "sub", "int"])
         self.ops.append(op)
         return e
 
@@ -184,6 +208,8 @@ class Builder(object):
             op["target"] = target
         if prebuilt:
             op["prebuilt"] = True
+        elif self.rng.random() < 0.25:
+            op["form"] = self.rng.choice(["array", "tuple"])      # numpy array of Expressions / tuple of tuples
         if self.names:
             op["name"] = "lmi_" + M
         self.ops.append(op)
@@ -901,6 +927,12 @@ def decorate(b, rng, kinds):
                 r = r2((c * ub) ** 0.5)
                 a2 = b.elin([(e, -1.0)], const=c * ub + r * r)
                 b.psd([[a2, r], [r, 1.0]], target=target)
+        elif kind == "tiny_scale" and pts:
+            # a redundant bound written in a tiny (or huge) unit: eps * ||p||^2 <= eps * 1e3
+            eps = rng.choice([1e-9, 1e-10, 1e-12, 1e-9, 1e9])
+            p = rng.choice(pts)
+            e = b.elin([(b.sq(p), eps)])
+            b.cons(e, "<=", eps * 1e3, target=rng.choice([P] + ([info["main_f"]] if info.get("main_f") else [])))
         elif kind == "orphan_psd" and info.get("metrics"):
             # a PSDMatrix object that is created but never added to the model
             b.psd([[info["metrics"][0], 0.0], [0.0, 1.0]], target=None)
@@ -909,7 +941,7 @@ def decorate(b, rng, kinds):
 
 DECORATIONS = ["extra_metric", "redundant_cons", "eq_cons", "func_cons", "lmi_sym", "lmi_asym", "lmi_func", "lmi3",
                "unused_query", "useless_partition", "orphan_psd", "part_cons", "zero_coef", "mirror", "leaf_metric",
-               "leaf_sides", "composite_items", "double_reg", "idle_operator", "lmi_affine"]
+               "leaf_sides", "composite_items", "double_reg", "idle_operator", "lmi_affine", "tiny_scale"]
 
 
 def build_model(rng, prefix="", template=None, n=None, decorations=None, names=None, weights=None,
@@ -931,4 +963,10 @@ def build_model(rng, prefix="", template=None, n=None, decorations=None, names=N
         decorations = [rng.choice(pool) for _ in range(k)] if pool else []
     decorate(b, rng, decorations)
     b.info["decorations"] = list(decorations)
+    # alternative routes of the public API to the same declarations
+    for op in b.ops:
+        if op["op"] in ("point", "func", "gradient") and op.get("name") is not None and rng.random() < 0.3:
+            op["late_name"] = True       # obj.set_name(name) afterwards instead of name=... at creation
+        if op["op"] == "stationary" and rng.random() < 0.3:
+            op["bare"] = True            # stationary_point() returning the point only
     return b
